@@ -80,7 +80,7 @@ def design_checks(ctx):
             # Output's invariants on the mapped variables ride along with the safety run; the full
             # refinement (Output!Spec as a PROPERTY) and the liveness run use a handful of scripts
             jobs["safe"] = ex.submit(ctx.tlc, "MCXMPP", cfg(SAFETY + ACTION + ["OutputInvs"], scripts="ScriptsT"), workers=5, timeout=600, name="MCXMPP_safe")
-            jobs["refine"] = ex.submit(ctx.tlc, "MCXMPP", cfg(["OutputSpec"], programs="ProgramsLT", scripts="ScriptsLT", roles=("init",)),
+            jobs["refine"] = ex.submit(ctx.tlc, "MCXMPP", cfg(["OutputSpec"], programs="ProgramsRQ", scripts="ScriptsLQ", roles=("init",)),
                                        workers=w, timeout=600, name="MCXMPP_refine")
             jobs["live"] = ex.submit(ctx.tlc, "MCXMPP", cfg(LIVE, spec="FairSpec", programs="ProgramsLT", scripts="ScriptsLQ", roles=("init",)),
                                      workers=w, timeout=600, name="MCXMPP_live")
@@ -94,7 +94,7 @@ def design_checks(ctx):
                                       workers=w, timeout=3000, name="MCXMPP_safe2", heap="12g")
             jobs["safe3"] = ex.submit(ctx.tlc, "MCXMPP", cfg(SAFETY + ACTION, programs="ProgramsR", scripts="Scripts3", roles=("init",)),
                                       workers=w, timeout=3000, name="MCXMPP_safe3", heap="12g")
-            jobs["refine"] = ex.submit(ctx.tlc, "MCXMPP", cfg(["OutputSpec", "OutputInvs"], programs="ProgramsDl", scripts="Scripts2", roles=("init",), chunks=2),
+            jobs["refine"] = ex.submit(ctx.tlc, "MCXMPP", cfg(["OutputSpec", "OutputInvs"], programs="ProgramsDl", scripts="ScriptsQ", roles=("init",)),
                                        workers=w, timeout=3000, name="MCXMPP_refine", heap="8g")
             jobs["live"] = ex.submit(ctx.tlc, "MCXMPP", cfg(LIVE, spec="FairSpec", programs="ProgramsL", scripts="ScriptsL", roles=("init",)),
                                      workers=w, timeout=3000, name="MCXMPP_live")
@@ -312,6 +312,25 @@ def selftest(ctx, trs):
         m[i]["class"] = "nil"
     mut("transmit call after the end reported success", late_tx_accepted)
 
+    def empty_local(m):
+        for e in m:
+            if e["ev"] in ("return", "final") or (e["ev"] == "negret" and e.get("f") == "bind"):
+                e["local"] = ""
+                if "into" in e:
+                    e["into"] = ""
+    mut("session established with an empty local address", empty_local)
+
+    def remote_changed(m):
+        i = first(m, lambda e: e["ev"] == "negret" and e.get("f") == "bind")
+        if i is None:
+            return False
+        for e in m[i:]:
+            if "remote" in e:
+                e["remote"] = "other.example"
+            if "infrom" in e:
+                e["infrom"] = "other.example"
+    mut("peer address changed during the negotiation", remote_changed)
+
     def drop_return(m):
         i = first(m, lambda e: e["ev"] == "return")
         m.pop(i)
@@ -337,8 +356,9 @@ def classify(tr, hw):
 
 def run_part(ctx):
     quick = ctx.tier == "quick"
-    res, ndev = design_checks(ctx)
-    if getattr(ctx, "replay", None):
+    replay = getattr(ctx, "replay", None)
+    res, ndev = ({}, 0) if replay else design_checks(ctx)      # a replay re-runs exactly the stored case
+    if replay:
         case = json.load(open(ctx.replay))["case"]
         sc = case["scenario"]
         seq, sched = ([sc], []) if not sc.get("procs") else ([], [sc])
@@ -392,8 +412,10 @@ def run_part(ctx):
     cov = {
         "states": sum(res[k].distinct for k in ("safe", "safe2", "safe3") if k in res),
         "transitions": sum(res[k].generated for k in ("safe", "safe2", "safe3") if k in res),
-        "refinement_states": res["refine"].distinct, "refinement": "XMPP.tla (established/closing part, other variables hidden) => Output!Spec checked as a TLC PROPERTY, plus Output's invariants on the mapped variables",
-        "liveness_states": res["live"].distinct,
+        "design_runs": {k: {"distinct": r.distinct, "generated": r.generated, "depth": r.depth, "wall_s": round(r.wall, 1)}
+                        for k, r in res.items() if not k.startswith("dev:")},
+        "refinement_states": res["refine"].distinct if res else 0, "refinement": "XMPP.tla (established/closing part, other variables hidden) => Output!Spec checked as a TLC PROPERTY, plus Output's invariants on the mapped variables",
+        "liveness_states": res["live"].distinct if res else 0,
         "deviation_property_pairs_failing": ndev,
         "traces_validated_against_impl": summ["traces"], "runs": summ["evaluations"], "trace_events": summ["events"],
         "trace_states": r.distinct, "rejected": len(rej), "known_findings_matched": known,
